@@ -8,7 +8,8 @@ N == INSTANCE NegotiateDefs
 VARIABLE l
 MInit == l = 1 /\ MarkInit
 Case(e) == [req |-> e.c.req, tr |-> e.c.tr, json |-> e.c.json, store |-> e.c.store, wrap |-> e.c.wrap,
-            adv |-> AsSet(e.c.adv), disc |-> e.c.disc, prior |-> e.c.prior, early |-> e.c.early]
+            adv |-> AsSet(e.c.adv), disc |-> e.c.disc, dbody |-> e.c.dbody, prior |-> e.c.prior, early |-> e.c.early,
+            ians |-> e.c.ians]
 Out(e) == [kind |-> e.o.kind, version |-> e.o.version, nDisc |-> e.o.nDisc, sentInit |-> e.o.sentInit,
            listOK |-> e.o.listOK, callOK |-> e.o.callOK]
 MNext == /\ l <= NLines /\ l' = l + 1
